@@ -4,7 +4,11 @@ against PewModel/Agilent.lean.
 An abstract batch description (plain JSON) is written to disk by harness/gen_agilent.py with the
 file layouts of the fixtures, imported by the real code, and sent to the Lean driver, which
 evaluates the mechanism model and the specification.  Pixel values travel as float64 bit tokens
-(placement) or exact rationals (counts-per-second division, CSV text)."""
+(placement) or exact rationals (counts-per-second division, CSV text).
+
+Beside the reference calls (explicit collection methods, full=True) every case carries `calls`: further calls of the entry
+points with each option given or omitted (full=False — the default — returns the bare image), on a Path or a str; the driver
+evaluates the Lean entry-point models (PewModel/Agilent.lean section 9) for exactly those option tuples."""
 import json
 import logging
 import math
@@ -27,6 +31,10 @@ ACCTIMES = ["0.159999996423721", "0.167999997735023", "0.1", "0.05", "0.25", "1"
 WIN = "D:\\Agilent\\ICPMH\\1\\DATA\\verif\\synthetic.b\\"
 PATH_STYLES = ["win", "win", "posix", "bare", "mixed"]
 METHODS = ["batch_xml", "batch_csv", "acq_method_xml", "alphabetical"]
+ENTRY_POINTS = ["load_binary", "load_csv", "load"]
+# which options an entry point takes (collection_methods is taken by all of them)
+TAKES = {"load_binary": ("cps", "full"), "load_csv": ("use_acq", "full"), "load": ("cps", "use_acq", "full"), "collect_datafiles": ()}
+KWARG = {"cps": "counts_per_second", "use_acq": "use_acq_for_names", "full": "full"}
 
 
 def styled(name, style):
@@ -62,6 +70,12 @@ class C02(Prop):
             "misaligned, permuted, ByteCount 0/other, profile shorter/longer than the scans, one file a scan short: np.stack raises, an MSTS_XAddition "
             "index outside the mass table: KeyError), per-line CSVs of unequal length (0 rows, 1 row: "
             "NumPy broadcast, other: ValueError), a data directory without digit in its name (directory scan raises); "
+            "call options: beside the reference calls (explicit methods, full=True) every batch is imported by 3 further calls of load_binary / "
+            "load_csv / load whose options collection_methods, counts_per_second, use_acq_for_names, full are each independently omitted (signature "
+            "default: ['batch_xml', 'batch_csv'], False, True, False = the bare image is returned) or given False/True, the batch named by a "
+            "pathlib.Path or a str (collect_datafiles too), compared with the Lean entry-point models loadBinaryCall / loadCsvCall / load (image, "
+            "return shape, times and scan time when full); 3 targeted batches (counts; MS/MS counts with an unreadable binary = CSV fallback; bit "
+            "patterns) run the whole option grid (18 + 18 + 54 tuples); "
             "96 targeted small batches (all 16 metadata subsets x sizes 1/2) + the minimal inputs of the two repaired defects + 17 off-hypothesis batches; "
             "non-trivial = reaches a named size/order/log/metadata/CSV boundary class; distinct by canonical case hash")
     trusted = [
@@ -86,6 +100,9 @@ class C02(Prop):
         "imported float64 values) exactly when the exact values of the batch satisfy Lean `agree` with `printSlack` (theorem `agree_transfer`; "
         "float64 division and decimal->binary conversion correctly rounded)",
         "exception classes are not compared (raised vs returned only)",
+        "call options: drop_names is left at its default in every call (the property does not say what an image with a kept time column or a "
+        "dropped element is); an omitted option is modelled by the default of the current signature; counts_per_second=True is only called on "
+        "count-valued batches (bit-pattern batches hold NaNs/infinities that the exact division of the model does not describe)",
         "scantime is compared to within 0.5e-4 of the exact mean interval (the code rounds to 4 places) and, for the CSV import, only when no "
         "line's CSV is missing (DESIGN 5.2 boundary decision; counted as feature 'scantime-not-compared:blank-line')",
     ]
@@ -134,6 +151,61 @@ class C02(Prop):
 
     def generate(self, rng, tier):
         return self.build(rng)
+
+    @staticmethod
+    def call(fn, methods=None, cps=None, use_acq=None, full=None, path="Path"):
+        """one call of an entry point: an option is a value, or None = the caller omits it (the default of the signature
+        applies: collection_methods ['batch_xml', 'batch_csv'], counts_per_second False, use_acq_for_names True, full False =
+        the bare image is returned); `path` = the batch is named by a pathlib.Path or by a str"""
+        d = {"fn": fn, "methods": methods, "cps": cps, "use_acq": use_acq, "full": full, "path": path}
+        for opt in ("cps", "use_acq", "full"):
+            if opt not in TAKES[fn]:
+                d[opt] = None
+        return d
+
+    def gen_calls(self, rng, methods, rational, count):
+        """`count` calls with independently drawn option tuples (each option omitted / False / True), plus now and then the
+        collection itself on a str path"""
+        calls = []
+        for _ in range(count):
+            fn = rng.choice(ENTRY_POINTS)
+            tri = lambda: rng.choice([None, False, True])
+            ms = rng.choice([None, list(methods), list(methods), rng.sample(METHODS, rng.randint(1, 4))])
+            calls.append(self.call(fn, methods=ms, cps=tri() if rational else rng.choice([None, False]), use_acq=tri(),
+                                   full=rng.choice([None, False, False, True]), path=rng.choice(["Path", "str"])))
+        if rng.random() < 0.3:
+            calls.append(self.call("collect_datafiles", methods=list(methods), path=rng.choice(["Path", "str", "str"])))
+        return calls
+
+    def option_grid(self, methods, rational):
+        """every option tuple of every entry point: collection_methods omitted / given, the boolean options omitted / False / True"""
+        import itertools
+        tri = [None, False, True]
+        i = 0
+        for fn in ENTRY_POINTS:
+            axes = [[None, list(methods)]] + [tri if opt in TAKES[fn] else [None] for opt in ("cps", "use_acq", "full")]
+            for ms, cps, use_acq, full in itertools.product(*axes):
+                if cps and not rational:
+                    continue
+                i += 1
+                yield self.call(fn, methods=ms, cps=cps, use_acq=use_acq, full=full, path="str" if i % 3 == 0 else "Path")
+        for path in ("Path", "str"):
+            yield self.call("collect_datafiles", methods=list(methods), path=path)
+
+    def grid_cases(self):
+        """the whole option grid on three small batches: counts (binary import), MS/MS counts with an unreadable binary (CSV
+        fallback of load; the names of the method file differ from the CSV header's), bit patterns with MS/MS names"""
+        import random
+        for i, (mode, msms, unreadable, methods) in enumerate((("counts", False, False, ["batch_csv", "batch_xml"]),
+                                                               ("counts", True, True, ["batch_xml"]),
+                                                               ("bits", True, False, ["acq_method_xml", "alphabetical"]))):
+            rng = random.Random(f"C02-grid-{i}")
+            c = self.build(rng, n=2, k=2, R=3, mode=mode, msms=msms, has_xadd=True, has_xml=True, has_csv=True, has_acq=True,
+                           dirty=True, missing=False, csv_mode="all", odd=None, nodigit=False, badindex=False, methods=methods)
+            for j, f in enumerate(c["files"]):
+                f["binary"] = not (unreadable and j == 0)
+            c["calls"] = list(self.option_grid(methods, mode == "counts"))
+            yield c
 
     def build(self, rng, **force):
         """one abstract batch; `force` pins any of n, R, k, mode, msms, has_xadd, has_xml, has_csv, has_acq, dirty, methods"""
@@ -305,11 +377,15 @@ class C02(Prop):
                                  ["batch_xml", "batch_csv", "acq_method_xml", "alphabetical"], ["acq_method_xml", "alphabetical"],
                                  ["alphabetical"], ["batch_csv"], ["acq_method_xml"], ["batch_xml", "alphabetical"],
                                  rng.sample(METHODS, rng.randint(1, 4))])
-        return {"kind": "batch", "k": k, "R": R, "mode": mode, "msms": msms, "decimals": decimals,
+        case = {"kind": "batch", "k": k, "R": R, "mode": mode, "msms": msms, "decimals": decimals,
                 "xspecific": xspecific, "xadd": xadd, "listing": listing,
                 "xml": xml_entries if has_xml else None, "csv": csv_rows if has_csv else None, "acq": acq,
                 "files": files, "methods": nm_methods, "use_acq": rng.random() < 0.7, "cps": rng.random() < 0.5,
                 "scan_start": rng.choice([208, 208, 92, 160, 333]), "seed": rng.getrandbits(32)}
+        # the entry points called the way callers do: options given or left to their defaults (drawn last: the batch above
+        # is the one the same PRNG produced before this class existed)
+        case["calls"] = self.gen_calls(rng, nm_methods, mode == "counts", pick("n_calls", 3))
+        return case
 
     @staticmethod
     def odd_offsets(rng, f, k, kind=None):
@@ -377,6 +453,7 @@ class C02(Prop):
         yield self.other_result_case()
         yield self.crossing_case()
         yield from self.odd_cases()
+        yield from self.grid_cases()
         # every subset of the optional metadata files x smallest sizes (1 and 2 lines / masses, 2 scans), MS and MS/MS
         i = 0
         for has_xml, has_csv, has_acq, has_xadd in itertools.product([False, True], repeat=4):
@@ -532,20 +609,116 @@ class C02(Prop):
         try:
             with warnings.catch_warnings():
                 warnings.simplefilter("ignore")
-                data, params = call()
+                res = call()
         except Exception as e:
             return {"raises": "any", "class": type(e).__name__}, None
+        if not (isinstance(res, tuple) and len(res) == 2 and isinstance(res[0], np.ndarray) and res[0].dtype.names
+                and res[0].ndim == 2 and isinstance(res[1], dict)):
+            return {"bad-return": type(res).__name__}, None  # `full=True` was passed: (structured 2-d array, dict) is expected
+        data, params = res
         names = list(data.dtype.names)
         img = [[[tok(v) for v in data[n][line]] for n in names] for line in range(data.shape[0])]
         times = [[tok(v) for v in row] for row in params["times"]] if "times" in params else None
         return {"names": names, "img": img, "times": times}, params.get("scantime")
 
     @staticmethod
+    def effective_calls(case):
+        """the calls of a case (older corpus cases have none), made well-formed for any case a shrinker or a hand may derive:
+        an option the entry point does not take is omitted; counts per second need count values (bit patterns hold NaNs and
+        infinities, which the exact division of the model does not describe)"""
+        out = []
+        for d in case.get("calls") or []:
+            if d["fn"] not in TAKES:
+                raise core.InternalError(f"unknown entry point {d['fn']}")
+            e = {"fn": d["fn"], "methods": None if d["methods"] is None else list(d["methods"]),
+                 "path": "str" if d.get("path") == "str" else "Path"}
+            for opt in ("cps", "use_acq", "full"):
+                v = d.get(opt) if opt in TAKES[d["fn"]] else None
+                e[opt] = None if v is None else bool(v)
+            if e["cps"] and case["mode"] != "counts":
+                e["cps"] = False
+            if e["fn"] == "collect_datafiles" and e["methods"] is None:
+                e["methods"] = list(case["methods"])
+            out.append(e)
+        return out
+
+    @staticmethod
+    def impl_call(agilent, b, d):
+        """one call of a pewlib entry point with exactly the arguments the descriptor names -> (canonical return value, scantime)"""
+        path = str(b) if d["path"] == "str" else b
+        args = (path,) if d["methods"] is None else (path, list(d["methods"]))
+        kw = {KWARG[opt]: d[opt] for opt in ("cps", "use_acq", "full") if d[opt] is not None}
+        try:
+            with warnings.catch_warnings():
+                warnings.simplefilter("ignore")
+                res = getattr(agilent, d["fn"])(*args, **kw)
+        except Exception as e:
+            return {"raises": "any", "class": type(e).__name__}, None
+        if d["fn"] == "collect_datafiles":
+            bad = [str(p) for p in res if pathlib.Path(p).parent != b]
+            return ({"bad": "path outside batch " + bad[0]} if bad else [pathlib.Path(p).name for p in res]), None
+        if isinstance(res, tuple) and len(res) == 2 and isinstance(res[1], dict):
+            data, params = res
+        else:
+            data, params = res, None
+        if not (isinstance(data, np.ndarray) and data.dtype.names and data.ndim == 2):
+            return {"bad-return": type(res).__name__}, None
+        names = list(data.dtype.names)
+        out = {"names": names, "img": [[[tok(v) for v in data[n][line]] for n in names] for line in range(data.shape[0])],
+               "params": None}
+        if params is not None:
+            out["params"] = {"times": [[tok(v) for v in row] for row in params["times"]] if "times" in params else None}
+            return out, params.get("scantime")
+        return out, None
+
+    @staticmethod
+    def canon_call(d, r):
+        """driver reply of one call -> canonical (same shape as impl_call)"""
+        ret, via = r["ret"], r["via"]
+        if via == "collect":
+            return {"raises": "any"} if isinstance(ret, dict) else ret
+        if "raises" in ret:
+            return {"raises": "any", "class": ret["raises"]}
+        conv = int if (via == "binary" and not d["cps"]) else qtok
+        return {"names": ret["names"], "img": [[[conv(v) for v in col] for col in line] for line in ret["img"]],
+                "params": None if ret["params"] is None else {"times": [[qtok(t) for t in row] for row in ret["params"]["times"]]}}
+
+    @staticmethod
+    def call_features(calls, rep):
+        feats = set()
+        word = {None: "omitted", False: "False", True: "True"}
+        for d, r in zip(calls, rep["calls"]):
+            fn, sp = d["fn"], r["spec"]
+            feats.add("call:" + fn)
+            if d["path"] == "str":
+                feats.add("call:path-str")
+            if fn == "collect_datafiles":
+                continue
+            returned = "raises" not in sp["ret"]
+            image_only = not d["full"]
+            feats.add("call:full=" + word[d["full"]])
+            if d["methods"] is None:
+                feats.add("call:methods-omitted")
+            if all(d[opt] is None for opt in ("methods", "cps", "use_acq", "full")):
+                feats.add("call:all-defaults")
+            if "use_acq" in TAKES[fn]:
+                feats.add("call:use_acq=" + word[d["use_acq"]])
+            if "cps" in TAKES[fn]:
+                feats.add("call:counts_per_second=" + word[d["cps"]])
+            if returned and image_only:
+                feats.add(f"call:image-only:{fn}")
+                if d["cps"] and sp["via"] == "binary":
+                    feats.add("call:image-only+counts-per-second")
+                if fn == "load" and sp["via"] == "csv":
+                    feats.add("call:image-only+csv-fallback")
+        return feats
+
+    @staticmethod
     def same_image(a, b):
         """canonical equality; the property does not name exception classes: raised matches raised"""
         if a is None or b is None:
             return a is None and b is None
-        if "raises" in a or "raises" in b:
+        if isinstance(a, dict) and isinstance(b, dict) and ("raises" in a or "raises" in b):
             return "raises" in a and "raises" in b
         return core.canon(a) == core.canon(b)
 
@@ -612,11 +785,15 @@ class C02(Prop):
             impl["csv"], st["csv"] = self.impl_image(lambda: agilent.load_csv(b, list(methods), use_acq_for_names=case["use_acq"], full=True))
             impl["load"], st["load"] = self.impl_image(lambda: agilent.load(b, list(methods), use_acq_for_names=case["use_acq"],
                                                                             counts_per_second=cps, full=True))
+            calls = self.effective_calls(case)
+            done = [self.impl_call(agilent, b, d) for d in calls]
+            impl["calls"], call_st = [r for r, _ in done], [t for _, t in done]
         finally:
             pathlib.Path.iterdir = orig_iterdir
             lg.disabled = old_disabled
 
-        rep = ctx.driver.call("c02.import", **self.request(case))
+        rep = ctx.driver.call("c02.import", **self.request(case), calls=[{k: d[k] for k in ("fn", "methods", "cps", "use_acq", "full")}
+                                                                         for d in calls])
         sides = {}
         for side in ("model", "spec"):
             d = {"collect": {k: ({"raises": "any"} if isinstance(v, dict) else v) for k, v in rep["collect"][side].items()},
@@ -625,6 +802,7 @@ class C02(Prop):
                  "csv": self.canon_image(rep["csv"][side], qtok)}
             ld = rep["load"][side]
             d["load"] = self.canon_image(ld, (qtok if (cps or self._is_csv_load(rep, side)) else int))
+            d["calls"] = [self.canon_call(c, r[side]) for c, r in zip(calls, rep["calls"])]
             sides[side] = d
         # hypotheses of the pixel theorems, decided by the driver (Lean `layoutB`, `csvShapeB`): outside them the
         # specification does not describe the batch and only the mechanism model is compared
@@ -665,10 +843,25 @@ class C02(Prop):
                 if (key == "csv" or (key == "load" and self._is_csv_load(rep, side))) and missing_csv:
                     continue  # DESIGN 5.2: blanked lines and the mean interval — not compared
                 good = good and self.scantime_ok(st[key], r["scantime"])
+            for i, c in enumerate(calls):
+                r = rep["calls"][i][side]
+                if side == "spec" and c["fn"] != "collect_datafiles" and (
+                        (not hyp_layout and c["fn"] in ("load_binary", "load")) or (not hyp_csv and c["fn"] in ("load_csv", "load"))):
+                    continue
+                good = good and self.same_image(impl["calls"][i], s["calls"][i])
+                ret = r["ret"]
+                if isinstance(ret, dict) and ret.get("params") is not None and isinstance(impl["calls"][i], dict) \
+                        and impl["calls"][i].get("params") is not None:
+                    if r["via"] == "csv" and missing_csv:
+                        continue  # DESIGN 5.2: blanked lines and the mean interval — not compared
+                    ref = ret["params"]["scantime"]
+                    # `full`: the scan time is reported (whenever there is an interval to average)
+                    good = good and (ref is None or (call_st[i] is not None and self.scantime_ok(call_st[i], ref)))
             return good
 
         if missing_csv and impl["csv"] is not None and "raises" not in impl["csv"]:
             feats.add("scantime-not-compared:blank-line")
+        feats |= self.call_features(calls, rep)
         return outcome(impl, sides["model"], sides["spec"], spec_ok=ok("spec"), model_ok=ok("model"),
                        hyp=bool(hyp_layout and hyp_csv), features=feats)
 
@@ -706,7 +899,7 @@ class C02(Prop):
     def lean_agree(ctx, on, csv, present, decimals):
         """verdict of the Lean `agree` (driver op c02.agree) on pewlib's counts-per-second binary import and its CSV import;
         the float64 values travel as exact rationals, a non-finite value as null"""
-        if on is None or csv is None or "raises" in on or "raises" in csv or present is None:
+        if on is None or csv is None or "img" not in on or "img" not in csv or present is None:
             return None
 
         def exact(img):
@@ -777,6 +970,16 @@ class C02(Prop):
     # ------------------------------------------------------------------ shrinking
     def shrink(self, case):
         files = case["files"]
+        calls = case.get("calls") or []
+        if len(calls) > 1:  # a single call, then all but one
+            for c in calls:
+                yield {**case, "calls": [c]}
+            for i in range(len(calls)):
+                yield {**case, "calls": calls[:i] + calls[i + 1:]}
+        elif calls:
+            yield {**case, "calls": []}
+            if calls[0].get("path") == "str":
+                yield {**case, "calls": [{**calls[0], "path": "Path"}]}
         # drop one data file together with its log/sample entries
         if len(files) > 1:
             for i in range(len(files)):
